@@ -507,6 +507,37 @@ func (ck *Check) armingRule(rule string) {
 	ck.cond(len(bad) == 0, rule, "lock/callers", "", funcID(a.Lock), "lock() is called only by ScaleUp", strings.Join(bad, ", "), "the lock is armed from "+strings.Join(bad, ", "))
 }
 
+// denotesNow: t is a call of time.Now, or of a repo function every feasible return of which yields
+// such a call (a clock accessor whose injection seam nothing fills).
+func (ck *Check) denotesNow(t *Term, depth int) bool {
+	if t == nil || t.Kind != "call" || depth > 2 {
+		return false
+	}
+	if t.Name == "time.Now" {
+		return true
+	}
+	h := t.Fn
+	if h == nil || !ck.P.inRepo(h) || h.Blocks == nil || infoOf(h).hasLoop || h.Signature.Results().Len() != 1 {
+		return false
+	}
+	hctx := ck.P.NewCtx(h)
+	n := 0
+	for _, b := range h.Blocks {
+		r, ok := b.Instrs[len(b.Instrs)-1].(*ssa.Return)
+		if !ok {
+			continue
+		}
+		if sat, err := Satisfiable(hctx.BlockPC(b)); err == nil && !sat {
+			continue
+		}
+		n++
+		if !ck.denotesNow(hctx.Term(r.Results[0]), depth+1) {
+			return false
+		}
+	}
+	return n > 0
+}
+
 // lockBodies: C02.R3 and R5.
 func (ck *Check) lockBodies(rule string) {
 	a := ck.A
@@ -542,7 +573,7 @@ func (ck *Check) lockBodies(rule string) {
 				}
 				if f == fLockTime {
 					t := ctx.Term(st.Val)
-					if t.Kind == "call" && (t.Name == "time.Now") && uncond {
+					if ck.denotesNow(t, 0) && uncond {
 						gotTime = true
 						clock = "time"
 					}
@@ -579,8 +610,15 @@ func (ck *Check) lockBodies(rule string) {
 			for _, at := range ctx.BlockPC(b).Atoms() {
 				if at.Kind == "cmp" && at.Name == "<" {
 					x, y := ctx.seeThrough(at.Args[0]), at.Args[1]
-					if x.Kind == "call" && x.Name == "time.Since" && len(x.Args) == 1 && x.Args[0].Kind == "field" && x.Args[0].Obj == fLockTime && x.Args[0].Args[0].Key() == recv.Key() &&
-						y.Kind == "field" && y.Obj == fMin && y.Args[0].Key() == recv.Key() {
+					isLockTime := func(t *Term) bool {
+						return t.Kind == "field" && t.Obj == fLockTime && len(t.Args) == 1 && t.Args[0].Key() == recv.Key()
+					}
+					since := x.Kind == "call" && x.Name == "time.Since" && len(x.Args) == 1 && isLockTime(x.Args[0])
+					// … or now.Sub(lockTime), now read through the lock's clock accessor
+					if !since && x.Kind == "call" && strings.HasSuffix(x.Name, "(time.Time).Sub") && len(x.Args) == 2 {
+						since = ck.denotesNow(x.Args[0], 0) && isLockTime(x.Args[1])
+					}
+					if since && y.Kind == "field" && y.Obj == fMin && y.Args[0].Key() == recv.Key() {
 						elapsed = at
 					}
 				}
